@@ -6,9 +6,9 @@ CONSTANTS
   MaxProps = 40
   MaxKps = 40
   MaxEpoch = 30
-  PathRequiredChoices = {FALSE, TRUE}
+  PathRequiredChoices = {TRUE}
   EncChoices = {FALSE, TRUE}
-  ByValueMax = 3
+  ByValueMax = 1
   AllowConflicts = FALSE
   Features = {}
   Window = 2
@@ -18,11 +18,11 @@ CONSTANTS
   PskValues = {"none"}
   Deviations = {"F12", "F14"}
   MaxApps = 0
-  Depth = 130
-  BootSize = 7
-  WProgress = 66
-  WPropose = 18
-  WCommit = 55
+  Depth = 150
+  BootSize = 8
+  WProgress = 75
+  WPropose = 6
+  WCommit = 80
   WApp = 15
   WStore = 10
 INVARIANT EmitAtDepth
